@@ -362,6 +362,36 @@ func checkC06(r *core.Run) {
 		})
 		r.Check(zeroErr && okZero, "C06.cas", core.ShortKey(u.Obj)+" : zero affected rows is an error", w.Pos(u.Decl.Pos()), "a lost compare-and-set (0 rows) fails", "an update that changes no row (lost compare-and-set) is not reported as an error")
 	}
+	// ---- C06.cas: the fence record is read with a locking read (serialises two deliveries for one branch)
+	if q := w.Info(daoQuery); q != nil {
+		r.Fn(q)
+		text := ""
+		ast.Inspect(q.Decl.Body, func(n ast.Node) bool {
+			c, ok := n.(*ast.CallExpr)
+			if !ok {
+				return true
+			}
+			g := w.Info(core.Callee(q.Pkg.TypesInfo, c))
+			if g == nil || !strings.HasSuffix(g.Pkg.PkgPath, "/store/db/sql") {
+				return true
+			}
+			ast.Inspect(g.Decl.Body, func(m ast.Node) bool {
+				if id, ok := m.(*ast.Ident); ok {
+					if v, ok := g.Pkg.TypesInfo.Uses[id].(*types.Var); ok && v.Parent() == g.Pkg.Types.Scope() {
+						text = foldPkgString(g.Pkg, v, 4)
+					}
+				}
+				return true
+			})
+			return true
+		})
+		t := strings.ToLower(strings.Join(strings.Fields(text), " "))
+		r.Sites++
+		r.Check(strings.HasPrefix(t, "select") && strings.Contains(t, "for update"), "C06.cas", core.ShortKey(q.Obj)+" : the fence record is read FOR UPDATE", w.Pos(q.Decl.Pos()), "select ... for update",
+			"the fence record is read without a row lock ('"+t+"'): two deliveries for the same branch both read 'tried' and both go on; only the compare-and-set of the update separates them afterwards")
+	} else {
+		r.Anchor("C06.cas", nil, "TCCFenceStore.QueryTCCFenceDO implementation")
+	}
 	// ---- C06.bothtx
 	c06BothTx(r)
 	r.Floor("C06.phase", 6)
@@ -381,9 +411,13 @@ func c06BothTx(r *core.Run) {
 	}
 	classify := func(pkg *packages.Package, call *ast.CallExpr, callee *types.Func) []flow.Tag {
 		switch {
-		case isDriverTxCommit(callee), isDriverTxRollback(callee):
+		case isDriverTxCommit(callee):
+			return []flow.Tag{"bizend", "bizcommit"}
+		case isDriverTxRollback(callee):
 			return []flow.Tag{"bizend"}
-		case stdMethod(callee, pSQL, "Tx", "Commit"), stdMethod(callee, pSQL, "Tx", "Rollback"):
+		case stdMethod(callee, pSQL, "Tx", "Commit"):
+			return []flow.Tag{"fenceend", "fencecommit"}
+		case stdMethod(callee, pSQL, "Tx", "Rollback"):
 			return []flow.Tag{"fenceend"}
 		case stdMethod(callee, pDriver, "ConnBeginTx", "BeginTx"):
 			return []flow.Tag{"bizbegin"}
@@ -398,9 +432,16 @@ func c06BothTx(r *core.Run) {
 			continue
 		}
 		res := (&flow.Spec{W: w, Classify: classify}).Analyze(fn)
+		for _, cp := range res.Calls {
+			if inSet("fencecommit", cp.Tags...) {
+				r.Sites++
+				r.Check(cp.Before.Has("ok:bizcommit"), "C06.bothtx", core.ShortKey(fn.Obj)+" fence record becomes durable only after the business commit succeeded", w.Pos(cp.Call.Pos()),
+					"fence commit on the nil-error edge of the business commit", "the fence transaction can be committed before (or although) the business transaction has not committed: if the business commit then fails the fence log says the phase was applied, every redelivery is swallowed as a duplicate and the effect is lost for good")
+			}
+		}
 		for _, ex := range res.Exits {
 			r.Sites++
-			role := exitRole(ex, func(t string) bool { return strings.Contains(t, "bizend") || strings.Contains(t, "fenceend") })
+			role := exitRole(ex, func(t string) bool { return strings.HasSuffix(t, "bizend") || strings.HasSuffix(t, "fenceend") })
 			fenceVia := ex.ErrOrigin != nil && inSet("fenceend", ex.ErrOrigin.Tags...)
 			r.Check(ex.St.Has("bizend") && (ex.St.Has("fenceend") || fenceVia), "C06.bothtx", core.ShortKey(fn.Obj)+" "+role, w.Pos(ex.Pos),
 				"both the business and the fence transaction are ended", "this return leaves the fence transaction (or the business transaction) open: its connection and the fence row lock leak, and fence record and business effect diverge")
